@@ -25,13 +25,15 @@ func vArbBitString(nbytes int) (BitString, []byte) {
 	return BitString{buf: buf, cap: cp, len: ln, rCursor: cur}, snap
 }
 
-// vPrefixIntact: bits [0,n) of s equal those of the snapshot.
+// vPrefixIntact: bits [0,n) of s equal those of the snapshot (branch-free).
 func vPrefixIntact(s *BitString, snap []byte, n int) bool {
 	ok := true
-	for p := 0; p < len(snap)*8; p++ {
-		if p < n && vRefBit(s.buf, p) != vRefBit(snap, p) {
-			ok = false
-		}
+	for i := 0; i < len(snap); i++ {
+		k := n - 8*i // number of leading bits of byte i that belong to the prefix
+		k = zzvrt.IteInt(k < 0, 0, k)
+		k = zzvrt.IteInt(k > 8, 8, k)
+		m := byte(uint(0xff00) >> uint(k))
+		ok = zzvrt.And(ok, (s.buf[i]^snap[i])&m == 0)
 	}
 	return ok
 }
